@@ -324,9 +324,9 @@ theorem mlyCtxOf_ds (r : Rule) (p : Inst) (nti : Nat) (hr : WfRule r) (hp : WfIn
 theorem toU32_month (m : Int) (hm : 1 ≤ m ∧ m ≤ 12) : 1 ≤ toU32 m ∧ toU32 m ≤ 12 := by
   unfold toU32; have hu : u32 = 4294967296 := rfl; rw [hu]; omega
 
-/-- C16 (sane instants), as far as it holds; see `fillYly_wf` for the two provisos -/
+/-- C16 (sane instants), as far as it holds; see `fillYly_wf` for the proviso -/
 theorem fillMly_wf (r : Rule) (p : Inst) (n : Nat) (l : List Inst) (hr : WfRule r) (hp : WfInst p)
-    (hs : ShiftKeepsDates r.shift) (had : AllDayOk r p) (h : fillMly r p n = some l) : ∀ x ∈ l, WfInst x := by
+    (hs : ShiftKeepsDates r.shift) (h : fillMly r p n = some l) : ∀ x ∈ l, WfInst x := by
   rcases fillMly_some r p n l h with rfl | ⟨nti, y0, m0, _, hst, hpm1, hpm2, rfl⟩
   · exact fun x hx => (nomatch hx)
   · have hc : ∀ y (m : Int), 1 ≤ m ∧ m ≤ 12 → AllVC y (mlyCand (mlyCtxOf r p nti) y (toU32 m)) := fun y m hm =>
@@ -337,7 +337,7 @@ theorem fillMly_wf (r : Rule) (p : Inst) (n : Nat) (l : List Inst) (hr : WfRule 
         have he := finishPeriod_emits (mlyCtxOf r p nti).k y (mlyCand (mlyCtxOf r p nti) y (toU32 m)) st
         have hn := mlyNext_spec r.mon r.inter hr.inter 12 y m (by omega) (by unfold maxYear at hy; omega) hJ.1
         refine ⟨⟨hn.1, hn.2.1⟩, he.inv (fun x hx _ h2 => ?_) hJ.2⟩
-        exact finE_wf _ y _ hy (hc y m hJ.1) hs (times_ok r p hr hp had) hp.year x hx h2)
+        exact finE_wf _ y _ hy (hc y m hJ.1) hs (times_ok r p hr hp) hp.year x hx h2)
       (mlyTries * (nti + 1) + 12 * 2100 + 1) y0 m0 mlyTries {}
       ⟨mlyStart_m r p hr ⟨hpm1, hpm2⟩ y0 m0 hst, fun x hx => nomatch hx⟩
     exact fun x hx => hJ.2 x (List.mem_reverse.mp hx)
